@@ -20,7 +20,9 @@ IsListed(kf, k) == /\ Lists(kf)
 Bases == {<<>>, <<"--server">>, <<"--daemon">>, <<"--server", "--daemon">>, <<"--server", "--sender">>, <<"--server", "--daemon", "--sender">>}
 Extras == {<<>>, <<"-e CANARY">>, <<"--rsh=CANARY">>, <<"-a">>, <<"--version">>, <<"--help">>, <<"-e CANARY", "-a">>, <<"-a", "--version">>,
            \* options of the LISTENING daemon's own command line, sent by the peer: they must not reconfigure the session
-           <<"--gokr.modulemap=evil=OUTSIDE">>, <<"--gokr.config=OUTSIDE/evil.toml">>}
+           <<"--gokr.modulemap=evil=OUTSIDE">>, <<"--gokr.config=OUTSIDE/evil.toml">>,
+           \* the WORDS --daemon / --server as the ARGUMENT of another option: the parsed options do not have them
+           <<"-e --daemon">>, <<"--rsh --daemon">>, <<"--exclude --server", "-e --daemon">>, <<"--filter --daemon">>}
 PathArgs == {<<>>, <<".">>, <<".", "OUTSIDE">>, <<"host:path", "DROP">>, <<"OUTSIDE/", "DROP">>, <<"OUTSIDE/">>}
 Requests == {"exec", "shell", "env", "subsystem", "pty-req", "channel:direct-tcpip"}
 
